@@ -255,7 +255,7 @@ def addressed_to_robot(prog, an, rep):
         rm = []
         for t in rm_tests:
             rm += c.branch(t, True)
-            pat = const_value(t.ast.args[0])
+            pat = const_value(t.matched.args[0])
             lang = Lang.from_regex(pat)
             fc = lang.first_chars()
             rep.evaluated()
@@ -263,11 +263,11 @@ def addressed_to_robot(prog, an, rep):
                       'regex %r starts with "/"' % (f.qname, pat),
                       f.where(t), 'the prefix-less syntax accepts text '
                       'starting with %s' % sorted(fc)[:8], detail=pat)
-            rep.check(len(t.ast.args) > 1 and
-                      _same_text(f, t.ast.args[1], sw_subject(an, f, prefix)),
+            rep.check(len(t.matched.args) > 1 and
+                      _same_text(f, t.matched.args[1], sw_subject(an, f, prefix)),
                       'C07.ARG.slash-syntax', f.qname + ': slash regex is '
                       'matched against the stripped comment', f.where(t),
-                      're.match is applied to %s' % src(t.ast.args[1]))
+                      're.match is applied to %s' % src(t.matched.args[1]))
         rep.floor('C07 addressed-to-robot tests in ' + f.name,
                   len(sw) + len(rm), 2)
         hcalls = [n for n in c.nodes.values() if n.kind == 'stmt' and any(
@@ -284,7 +284,7 @@ def addressed_to_robot(prog, an, rep):
                       'nor uses the slash syntax',
                       path=c.describe_path(path))
         # what is parsed is the text after the prefix that matched
-        raws = {src(t.ast.func.value) for t in an.test_nodes(
+        raws = {src(t.matched.func.value) for t in an.test_nodes(
             f, lambda e: isinstance(e, ast.Call) and
             isinstance(e.func, ast.Attribute) and
             e.func.attr == 'startswith')}
@@ -337,7 +337,7 @@ def sw_subject(an, f, prefix):
             f, lambda e: isinstance(e, ast.Call) and
             isinstance(e.func, ast.Attribute) and
             e.func.attr == 'startswith'):
-        return t.ast.func.value
+        return t.matched.func.value
     return None
 
 
